@@ -193,9 +193,9 @@ Proof.
   - apply tl_keep_same; auto.
 Qed.
 
-Lemma locked_hist s c stale : Inv s -> hist_le s (fst (locked H s c stale)).
+Lemma locked_hist s c : Inv s -> hist_le s (fst (locked H s c)).
 Proof.
-  intros HI. destruct (locked_cases H s c stale HI) as (s4 & HI4 & Kc & Kt & [-> | ->] & _ & _).
+  intros HI. destruct (locked_cases H s c HI) as (s4 & HI4 & Kc & Kt & [-> | ->] & _ & _ & _).
   - apply keep_hist_le; auto.
   - eapply hist_le_trans; [apply keep_hist_le; eauto|apply may_commit_hist; auto].
 Qed.
@@ -287,7 +287,7 @@ Lemma step_new_writes s o : Inv s ->
 Proof.
   intros HI w. destruct o; cbn [step].
   - destruct (begin_core H s c p exp skipic) as (_ & -> & _). auto.
-  - destruct (locked_cases H s c stale HI) as (s4 & HI4 & _ & _ & [-> | ->] & Hn & _); [apply Hn|].
+  - destruct (locked_cases H s c HI) as (s4 & HI4 & _ & _ & [-> | ->] & Hn & _ & _); [apply Hn|].
     destruct (may_commit_keep H s4 HI4) as [_ ->]. apply Hn.
   - unfold sync. destruct (s_inmem s =? s_committed s); [auto|].
     assert (HI' : Inv (tl_flush s)) by (eapply Inv_same_core; eauto; repeat split).
